@@ -36,6 +36,12 @@ CLAIMED.update({
    text='accept <=> policy membership, ValueError-only refusal, silent fallback under *, and no late Python-side failure for every accepted pair, over all 47,040 lattice points (24 selectors x 980 configs x 2 algorithms): the lattice is finite, so the enumeration is a complete decision of these clauses.',
    note='Not decided: the interpreter prepares the model and its outputs track the float model (external LiteRT runtime).',
    design='§4 C13'),
+ 'C14': dict(
+   technique='contract-based verification of frame (modifies) / reads clauses by a conservative interprocedural may-mutate-a-parameter analysis over the real ASTs (callee summaries to a fixpoint, registry dispatch resolved from source), with native before/after replay',
+   level='proof',
+   text='For every public entry point and every caller-owned parameter the modifies clause "not this parameter" is decided over the whole call tree (240 functions, dynamic dispatch resolved from algorithm_manager source); history independence = no write to module globals / no run-time registration on the call trees, fresh worker objects per API call; set-iteration sites on the quantize call tree typed as int sets. A reported may-mutation is replayed natively (deep comparison of the argument before/after the real API call).',
+   note='Flow-insensitive syntactic analysis (no reflection/exec on the call trees, scanned); effects of C extensions (numpy, flatbuffers, LiteRT interpreter) come from an explicit trusted table; CPython small-int set iteration order is deterministic; TensorFlow serializer determinism assumed.',
+   design='§4 C14'),
 })
 
 NOT_APPLICABLE = {
